@@ -236,6 +236,38 @@ def acceptedFrom (s : TLState) : List String → List String
 
 def accepted (keys : List String) : List String := acceptedFrom {} keys
 
+/-! ### the simulated check pipeline (`CheckPipeline.CheckUpkeeps`, `isEligible`) and the perform history
+
+Every payload of a batch is evaluated on its own, at ITS check block (`key.Trigger.BlockNumber`), and recorded
+(`CheckID`, one contract-log line) at that block; the result carries the payload's upkeep id, trigger and work id.
+`isEligible` scans the eligible blocks from the last one down to the first that is `≤ block` and answers
+"not performed at any block of [eligible, block]".  `PerformTracker` appends the including block of every
+perform of a conditional upkeep to that upkeep's history and never rewrites an entry (the pipeline reads the
+slice it was handed after the tracker's lock is released). -/
+
+/-- `isEligible(eligibles, performs, block)` -/
+def isEligible (eligibles performs : List Int) (block : Int) : Bool :=
+  match eligibles.reverse.find? (fun e => decide (block ≥ e)) with
+  | none => false
+  | some e => !(performs.any fun p => decide (e ≤ p) && decide (p ≤ block))
+
+/-- the upkeep as a node's active tracker knows it (`none`: not active) -/
+structure PUpkeep where
+  conditional : Bool
+  always      : Bool
+  eligibleAt  : List Int
+deriving DecidableEq, Repr
+
+/-- `Eligible` of the result for one payload; `performs` is what `PerformsForUpkeepID` returns (recorded for
+conditional upkeeps only) -/
+def checkEligible (u : Option PUpkeep) (performs : List Int) (block : Int) : Bool :=
+  match u with
+  | none => false
+  | some u => if u.always then true else isEligible u.eligibleAt (if u.conditional then performs else []) block
+
+/-- `registerTransmitted` for one conditional upkeep: the history after the including blocks `blocks`, in order -/
+def performHistory (blocks : List Int) : List Int := blocks.foldl (fun h b => h ++ [b]) []
+
 /-! ## §3 plan encode / decode at the JSON-tree level -/
 
 /-- scalar JSON values as the Go types of the plan produce them -/
